@@ -3,6 +3,7 @@ C04 - table minimisation never changes where a matched key is routed.
 Property theorems (helper lemmas live in RigModel/Lemmas/C04*.lean).
 -/
 import RigModel.Lemmas.C04
+import RigModel.Lemmas.C04Apply
 set_option linter.unusedSimpArgs false
 set_option linter.unusedVariables false
 
@@ -53,5 +54,47 @@ theorem removeDefault_target (T : List Entry) (t : Nat) (check : Bool) :
 same keys from two links is kept. -/
 example : removeDefault [⟨1, 5#32, 0xf#32, 8⟩, ⟨1, 6#32, 0xf#32, 8 + 16⟩] none true
     = .ok [⟨1, 6#32, 0xf#32, 8 + 16⟩] := by rfl
+
+/-! ## Ordered covering: the merge-application invariant -/
+
+/-- The invariant implies the property's conclusion (always through the first clause: the key
+is still matched, by an entry with the same route that lists the original's sources). -/
+theorem inv_routeEquiv (T0 T : List Entry) (A : Aliases) (h : Inv T0 T A) : RouteEquiv T0 T := by
+  intro k o ho
+  obtain ⟨e, h1, h2, h3, _⟩ := h k o ho
+  exact Or.inl ⟨e, h1, h2, h3⟩
+
+/-- The invariant holds initially, with the empty alias dictionary. -/
+theorem inv_init (T : List Entry) : Inv T T [] := by
+  intro k o ho
+  refine ⟨o, ho, rfl, bitSubset_refl _, o.km, by simp [alOf, alGet], ?_⟩
+  rw [kmMatches_km]; exact (lookup_some_matches ho).1
+
+/-- **apply_equiv.** Applying a merge (`_Merge.apply`: new table and new alias dictionary,
+including the dictionary corner cases where the merged key/mask equals a member's or an
+existing key) preserves the ordered-covering invariant, provided the merge passes the up-check
+(`UpOk`), the down-check (`DownOk`), all members share a route and the insertion index splits
+the table by generality.  No sortedness or well-formedness of entries is needed. -/
+theorem apply_equiv (T0 T : List Entry) (A : Aliases) (es : List Nat)
+    (hinv : Inv T0 T A) (hins : (mkMerge T es).ins ≤ T.length)
+    (hup : UpOk T (mkMerge T es)) (hdown : DownOk T A (mkMerge T es))
+    (hio : InsOk T (mkMerge T es)) (hsr : SameRoute T es) :
+    Inv T0 (applyMerge T (mkMerge T es) A).1 (applyMerge T (mkMerge T es) A).2 :=
+  apply_inv T0 T A es hinv hins hup hdown hio hsr
+
+/-- non-vacuity of `apply_equiv`: merging 0000 and 0001 (both -> E) in a three-entry table -/
+example :
+    let T : List Entry := [⟨1, 0#32, 0xf#32, 8⟩, ⟨1, 1#32, 0xf#32, 8⟩, ⟨2, 2#32, 0xe#32, 8⟩]
+    (mkMerge T [0, 1]).ins ≤ T.length ∧ UpOk T (mkMerge T [0, 1]) ∧ DownOk T [] (mkMerge T [0, 1]) ∧
+      InsOk T (mkMerge T [0, 1]) ∧ SameRoute T [0, 1] ∧
+      (applyMerge T (mkMerge T [0, 1]) []).1 = [⟨1, 0#32, 0xe#32, 8⟩, ⟨2, 2#32, 0xe#32, 8⟩] := by
+  refine ⟨by decide, ?_, by rfl, ⟨by decide, by decide⟩, by simp [SameRoute, members], by rfl⟩
+  intro i hi e he o ho
+  have h1 : (mkMerge [⟨1, 0#32, 0xf#32, 8⟩, ⟨1, 1#32, 0xf#32, 8⟩, ⟨2, 2#32, 0xe#32, 8⟩] [0, 1]).ins = 2 := by rfl
+  simp only [h1] at ho
+  simp only [mkMerge, List.mem_cons, List.not_mem_nil, or_false] at hi
+  rcases hi with rfl | rfl
+  · simp at he ho; subst he; subst ho; rfl
+  · simp at ho
 
 end Rig.C04
